@@ -84,7 +84,7 @@ RecvTableMap(st, ev, m) ==
   IN IF known /\ "staleTable" \in Defects THEN st        \* keeps the first table forever
      ELSE IF consult /\ m = "err" THEN Fail(st, "mapper")
      ELSE IF consult /\ m = "mismatch"
-          THEN [Fail(st, "mismatch") EXCEPT !.pos = IF "zeroPosOnMismatch" \in Defects THEN [file |-> <<>>, off |-> "0"] ELSE @]
+          THEN [Fail(st, "mismatch") EXCEPT !.pos = IF "zeroPosOnMismatch" \in Defects THEN [file |-> ev.rotfile, off |-> ev.rotpos] ELSE @]   \* the zero Position
      ELSE [st EXCEPT !.tables = PutTable(st, ev.tbl.id, ev.tbl)]
 
 RecvRows(st, ev, h) ==
